@@ -138,6 +138,7 @@ def run_prog(ctx, prog):
     ocl, iou, nse = _ug()
     from sc3.synth import ugen as ugn
     consts = {n: ctx.real(n) for n in ('c1', 'c2') if n in prog['uses']}
+    sdsym.avoid(ctx, consts.values(), [101, 102, 103, 104, 105, 106])
     uses = prog['uses']
     rec = {'mode': 'nrt', 'prog': {'nodes': [list(n) for n in prog['nodes']], 'outs': list(prog['outs']),
                                   'out': prog['out'], 'uses': sorted(uses)}, 'names': sorted(consts)}
